@@ -55,7 +55,8 @@ func TestVerifMsgTimeoutOptions(t *testing.T) {
 		opts.Logger = nil
 		opts.LogLevel = LOG_FATAL
 		opts.DataPath = t.TempDir()
-		opts.TCPAddress, opts.HTTPAddress, opts.HTTPSAddress = "127.0.0.1:0", "127.0.0.1:0", ""
+		opts.TCPAddress, opts.HTTPAddress = vfLoop2()
+	opts.HTTPSAddress = ""
 		opts.MsgTimeout, opts.MaxMsgTimeout = p.mt, p.max
 		op := fmt.Sprintf("optcheck %d %d", int64(p.mt), int64(p.max))
 		nsqd, err := New(opts)
